@@ -104,6 +104,9 @@ type World struct {
 	stopAfter map[string]int
 	stopped   map[string]bool
 	onStop    map[string]func()
+	faults map[string]Fault
+	// FaultHit reports, per actor, the operation the injected fault landed on.
+	FaultHit map[string]string
 	// StampLog records every stamp applied to the lock directory or a file in it (in application order).
 	StampLog []Stamp
 }
@@ -119,6 +122,23 @@ type Stamp struct {
 }
 
 var ErrStopped = fmt.Errorf("verif: process stopped (injected)")
+
+// ErrInjected is the error returned by injected I/O faults.
+var ErrInjected = fmt.Errorf("verif: injected I/O error")
+
+// Fault describes one injected fault on an actor's K-th backend operation (counted from FaultAt).
+type Fault struct {
+	K    int
+	Kind string // "err-before" (op not executed), "err-after" (op executed, error returned), "short-write" (half of the bytes written, no error)
+}
+
+// FaultAt arms a fault for the actor (operation counting restarts at 0).
+func (w *World) FaultAt(actor string, f Fault) {
+	w.mu.Lock()
+	w.opCount[actor] = 0
+	w.faults[actor] = f
+	w.mu.Unlock()
+}
 
 // StopAfter arranges that actor "dies" right after its j-th backend operation (counted from now):
 // every later operation of the actor fails without effect; onStop (if non-nil) is called at that point
@@ -153,6 +173,20 @@ func (w *World) before(e *fsmon.Event) {
 		return
 	}
 	w.opCount[e.Actor]++
+	if f, ok := w.faults[e.Actor]; ok && f.K == w.opCount[e.Actor] {
+		switch f.Kind {
+		case "err-before":
+			e.Inject = ErrInjected
+		case "err-after":
+			e.FailAfter = ErrInjected
+		case "short-write":
+			if e.Len > 1 {
+				e.ShortWrite = e.Len / 2
+			}
+		}
+		w.FaultHit[e.Actor] = fmt.Sprintf("%s %s (%s)", e.Op, filepath.Base(e.Path), f.Kind)
+		delete(w.faults, e.Actor)
+	}
 	w.mu.Unlock()
 	w.S.Gate(e)
 }
@@ -178,7 +212,8 @@ func NewWorld(dir, lockID string, s *sched.Sched) *World {
 	w := &World{Dir: dir, LockID: lockID, Base: filesystem.NewExtendedOsFs(), Mon: fsmon.NewMonitor(false), S: s,
 		curCall: map[string]string{}, incAtCall: map[string]int{}, releasing: map[string]bool{}, holding: map[string]bool{},
 		dead: map[string]bool{}, wasHolder: map[string]bool{},
-		opCount: map[string]int{}, stopAfter: map[string]int{}, stopped: map[string]bool{}, onStop: map[string]func(){}}
+		opCount: map[string]int{}, stopAfter: map[string]int{}, stopped: map[string]bool{}, onStop: map[string]func(){},
+		faults: map[string]Fault{}, FaultHit: map[string]string{}}
 	w.LockPath = filepath.Join(dir, fmt.Sprintf("%v-%v", filesystem.LockFilePrefix, lockID))
 	w.Rs = &sched.Restamper{Base: w.Base, OnStamp: w.onStamp}
 	w.Mon.Before = w.before
@@ -221,7 +256,7 @@ func (w *World) onStamp(path string, t time.Time, explicit bool, e *fsmon.Event)
 
 func (w *World) after(e *fsmon.Event) {
 	// order matters: judge a removal against the stamps known before it, then re-stamp
-	if (e.Op == fsmon.OpMkdir || e.Op == fsmon.OpMkdirAll) && w.isLockPath(e.Path) && e.Error() != nil {
+	if (e.Op == fsmon.OpMkdir || e.Op == fsmon.OpMkdirAll) && w.isLockPath(e.Path) && !e.Effective {
 		// a failed attempt to create the lock directory starts a new decision window of this actor
 		// (TryLock: Mkdir fails -> IsStale? -> release + retry): remember which incarnation it looked at
 		w.mu.Lock()
@@ -232,7 +267,7 @@ func (w *World) after(e *fsmon.Event) {
 		}
 		w.mu.Unlock()
 	}
-	if e.Error() == nil {
+	if e.Effective {
 		switch {
 		case (e.Op == fsmon.OpMkdir || e.Op == fsmon.OpMkdirAll) && w.isLockPath(e.Path):
 			w.mu.Lock()
